@@ -10,7 +10,7 @@ Definition shared_fresh_case : case :=
                     fint := []; fret := [] |}];
      c_inputs := [((s "x"), (VA {| shp := [2%nat]; dat := [(s "a"); (s "b")] |}))];
      c_internal := []; c_user_int := []; c_func_int := [];
-     c_storage := (StUni (s "shared_memory_dict")); c_persist := true; c_fresh := true; c_xr := (s "ok") |}.
+     c_storage := (StUni (s "shared_memory_dict")); c_persist := true; c_fresh := true; c_xr := (s "ok"); c_mut := MNone |}.
 
 (* what the real code BEFORE the repair (repo commit 2366f61) returned for this case, recorded through
    harness/props/c04.py: load_outputs("y") raises FileNotFoundError in the fresh interpreter *)
@@ -38,7 +38,7 @@ Qed.
 (* a run with a tuple-output function with an internal axis (file_array under its tuple key), a reduction over that
    axis and a single output (both under the "" default shared_memory_dict), one internal shape given as a bare int *)
 Definition mixed_case : case :=
-  {| c_funcs := [{| fname := (s "f0"); fouts := [(s "y0"); (s "z0")]; fparams := [(s "x0")]; fbound := []; fdefaults := []; fspec := (Some {| ins := [{| aname := (s "x0"); axes := [(Some (s "i"))] |}]; outs := [{| aname := (s "y0"); axes := [(Some (s "i")); (Some (s "n0"))] |}; {| aname := (s "z0"); axes := [(Some (s "i")); (Some (s "n0"))] |}] |}); fint := []; fret := [2%nat] |}; {| fname := (s "f1"); fouts := [(s "y1")]; fparams := [(s "y0"); (s "c0")]; fbound := []; fdefaults := []; fspec := (Some {| ins := [{| aname := (s "y0"); axes := [(Some (s "i")); None] |}]; outs := [{| aname := (s "y1"); axes := [(Some (s "i"))] |}] |}); fint := []; fret := [] |}; {| fname := (s "f2"); fouts := [(s "y2")]; fparams := [(s "y1")]; fbound := []; fdefaults := []; fspec := None; fint := []; fret := [] |}]; c_inputs := [((s "x0"), (VA {| shp := [2%nat]; dat := [(s "a"); (s "b")] |})); ((s "c0"), (VS (s "C0")))]; c_internal := [((s "y0"), [2%nat]); ((s "z0"), [2%nat])]; c_user_int := [(s "y0")]; c_func_int := []; c_storage := (StDict [((KTup [(s "y0"); (s "z0")]), (s "file_array")); ((KName (s "")), (s "shared_memory_dict"))]); c_persist := true; c_fresh := true; c_xr := (s "ok") |}.
+  {| c_funcs := [{| fname := (s "f0"); fouts := [(s "y0"); (s "z0")]; fparams := [(s "x0")]; fbound := []; fdefaults := []; fspec := (Some {| ins := [{| aname := (s "x0"); axes := [(Some (s "i"))] |}]; outs := [{| aname := (s "y0"); axes := [(Some (s "i")); (Some (s "n0"))] |}; {| aname := (s "z0"); axes := [(Some (s "i")); (Some (s "n0"))] |}] |}); fint := []; fret := [2%nat] |}; {| fname := (s "f1"); fouts := [(s "y1")]; fparams := [(s "y0"); (s "c0")]; fbound := []; fdefaults := []; fspec := (Some {| ins := [{| aname := (s "y0"); axes := [(Some (s "i")); None] |}]; outs := [{| aname := (s "y1"); axes := [(Some (s "i"))] |}] |}); fint := []; fret := [] |}; {| fname := (s "f2"); fouts := [(s "y2")]; fparams := [(s "y1")]; fbound := []; fdefaults := []; fspec := None; fint := []; fret := [] |}]; c_inputs := [((s "x0"), (VA {| shp := [2%nat]; dat := [(s "a"); (s "b")] |})); ((s "c0"), (VS (s "C0")))]; c_internal := [((s "y0"), [2%nat]); ((s "z0"), [2%nat])]; c_user_int := [(s "y0")]; c_func_int := []; c_storage := (StDict [((KTup [(s "y0"); (s "z0")]), (s "file_array")); ((KName (s "")), (s "shared_memory_dict"))]); c_persist := true; c_fresh := true; c_xr := (s "ok"); c_mut := MNone |}.
 
 Lemma mixed_case_finishes :
   exists f, finish false mixed_case = Ok f /\ finished_consistent mixed_case f = true
